@@ -82,6 +82,11 @@ CLAIMED = {
    note="Bounds: candidates<=3 (4), subset<=2 (3), traits<=2; contribution sum >= 1e-3; sqrt/cholesky/eigvals by contract; L1-norm, allele-frequency-distance/unavailability, multi-objective-genomic, OPV and genotype-builder latent functions are not encoded; EMBV/UC/OHV tables are given data here.",
    technique="symbolic execution on z3-term arrays (symnp) + z3 (QF_NRA) identities; contract stubs for sqrt/cholesky/eigvals; replay on real numpy",
    design="2/C05"),
+   "C06": dict(
+   text="Bounded symbolic model checking of the real exact optimisers and variation operators: SortingSubsetOptimizationAlgorithm, SteepestDescentSubsetHillClimber and SortingSteepestDescentSubsetHillClimber run on a real EBV subset problem with symbolic member scores (optionally a symbolic or scenario-fixed weight-cap constraint, or a non-separable family-penalty objective) and a contract-stubbed generator; every feasible path (sort orders incl. arbitrary tie-breaking of numpy's unstable sort, accepted exchanges) ends in z3-discharged assertions: requested size, distinct members from the candidate set, reported objective/violation = fresh evaluation, problem arrays untouched, brute-force optimum for the separable case, and no single exchange improving (violation, score) at termination. SubsetRandomSampling, ReducedExchangeCrossover, ReducedExchangeMutation and tiled_choice keep subsets feasible and leave the problem's candidate array untouched for arbitrary draws.",
+   note="Bounds: candidates<=4 (5), subset<=2 (3), one objective. NOT decided: trajectories, feasibility, truthfulness and non-dominance of the pymoo GA/NSGA-II/NSGA-III runs (pymoo.optimize.minimize is concrete library code) and the integer SBX/PM wrappers; those clauses of C06 are outside this check.",
+   technique="symbolic execution on z3-term arrays (symnp) with forking sort/comparison handlers + z3 per-path obligations; symbolic generator; replay on real numpy",
+   design="2/C06"),
 }
 NA = {}
 for pid in props:
